@@ -1498,9 +1498,22 @@ namespace c14
                                   "random"};
     static const int NMODES = 13;  // coprime to the usual 16 shards
 
+    static void runPair(Sink &sink, Rng &rng, long modeIndex, uint64_t &caseHash, bool &nontrivial);
+
+    // one case = one pose pair (quick) or four pose pairs (thorough; keeps the per-shard list of case hashes in the done record
+    // below the driver's 200 kB tail window)
     static void runCase(Sink &sink, const Args &args, long c)
     {
         Rng rng(caseSeed(args, c));
+        const int reps = args.thorough() ? 4 : 1;
+        uint64_t h = 1;
+        bool nontrivial = false;
+        for (int r = 0; r < reps; ++r) runPair(sink, rng, c * reps + r, h, nontrivial);
+        sink.noteCase(h, nontrivial);
+    }
+
+    static void runPair(Sink &sink, Rng &rng, long modeIndex, uint64_t &caseHash, bool &nontrivial)
+    {
         double rho = rng.coin(0.2) ? rng.pick(std::vector<double>{0.1, 0.5, 1.0, 2.0, 10.0}) : rng.logUni(0.1, 10);
         Ctx x{sink, rho, std::make_shared<ob::DubinsStateSpace>(rho), std::make_shared<ob::DubinsStateSpace>(rho, true),
               std::make_shared<ob::ReedsSheppStateSpace>(rho), nullptr, nullptr, nullptr, nullptr, ""};
@@ -1519,7 +1532,7 @@ namespace c14
         x.p = x.D->allocState()->as<SE2>();
         x.q = x.D->allocState()->as<SE2>();
 
-        int mode = (int)(c % NMODES);
+        int mode = (int)(modeIndex % NMODES);
         x.mode = MODES[mode];
         double W = rng.pick(std::vector<double>{0.0, 1.0, 3.0, 10.0, 20.0}) * (rng.coin() ? 1.0 : rho);
         W = std::min(W, B / 2);
@@ -1632,7 +1645,7 @@ namespace c14
             // only required: distance <= tol (the library returns the straight offset), or the honest six-word value
             if (L > tol) sixWord(L, ref.exact, ref.snapped, "a->b", "Dubins");
             if (Lr > tol) sixWord(Lr, refr.exact, refr.snapped, "b->a", "Dubins");
-            sink.noteCase(hsh, false);
+            caseHash = hmix(caseHash, hsh);
         }
         else
         {
@@ -1660,27 +1673,25 @@ namespace c14
             if (L < eu - tol) sink.viol("C14:below-euclid:DubinsStateSpace", witness(x, "Dubins").num("distance", L).num("euclid", eu));
             if (Ls < eu - tol) sink.viol("C14:below-euclid:DubinsStateSpace", witness(x, "DubinsSymmetric").num("distance", Ls).num("euclid", eu));
             if (R < eu - tol) sink.viol("C14:below-euclid:ReedsSheppStateSpace", witness(x, "ReedsShepp").num("distance", R).num("euclid", eu));
-            // symmetry
-            sink.count("c14_symmetry_checks", 2);
-            if (std::fabs(Ls - Ls2) > tol)
-                sink.viol("C14:symmetry:DubinsStateSpace", witness(x, "DubinsSymmetric").num("d_ab", Ls).num("d_ba", Ls2).num("tol", tol));
-            if (std::fabs(R - R2) > tol)
-                sink.viol("C14:symmetry:ReedsSheppStateSpace", witness(x, "ReedsShepp").num("d_ab", R).num("d_ba", R2).num("tol", tol));
-            // Reeds-Shepp never exceeds Dubins in either direction
-            sink.count("c14_rs_le_dubins_checks");
-            bool rsDefect = false;
+            // Reeds-Shepp never exceeds Dubins in either direction.
             // Where the library's Dubins value lives in the snap band (it is the length of a curve that reaches the goal only at the
             // declared resolution, below the shortest certified exact curve) the comparison is made with the certified exact length:
             // the Dubins distance is discontinuous, so the value of a pose 1e-7 away says nothing about this pose.
+            sink.count("c14_rs_le_dubins_checks", 2);
             const double dubAB = ref.exact < 1e299 ? std::max(L, rho * ref.exact) : L, dubBA = refr.exact < 1e299 ? std::max(Lr, rho * refr.exact) : Lr;
-            if (R > std::min(L, Lr) + tol && R <= std::min(dubAB, dubBA) + tol) sink.count("c14_rs_above_snapped_dubins_only_stat");
-            if (R > std::min(dubAB, dubBA) + tol)
-            {
-                rsDefect = true;
-                sink.viol("C14:rs-exceeds-dubins:ReedsSheppStateSpace", witness(x, "ReedsShepp").num("reeds_shepp", R).num("dubins_ab", L).num("dubins_ba", Lr)
-                                                                             .num("dubins_ab_certified", dubAB).num("dubins_ba_certified", dubBA)
-                                                                             .num("ratio", R / std::min(dubAB, dubBA)).num("tol", tol));
-            }
+            const double dubMin = std::min(dubAB, dubBA);
+            if (std::max(R, R2) > std::min(L, Lr) + tol && std::max(R, R2) <= dubMin + tol) sink.count("c14_rs_above_snapped_dubins_only_stat");
+            const bool rsDefect = R > dubMin + tol || R2 > dubMin + tol;
+            if (rsDefect)
+                sink.viol("C14:rs-exceeds-dubins:ReedsSheppStateSpace", witness(x, "ReedsShepp").num("reeds_shepp_ab", R).num("reeds_shepp_ba", R2)
+                                                                             .num("dubins_ab", L).num("dubins_ba", Lr).num("dubins_ab_certified", dubAB)
+                                                                             .num("dubins_ba_certified", dubBA).num("ratio", std::max(R, R2) / dubMin).num("tol", tol));
+            // symmetry (for Reeds-Shepp only where the clause above held: an over-estimate in one direction is the same defect)
+            sink.count("c14_symmetry_checks", rsDefect ? 1 : 2);
+            if (std::fabs(Ls - Ls2) > tol)
+                sink.viol("C14:symmetry:DubinsStateSpace", witness(x, "DubinsSymmetric").num("d_ab", Ls).num("d_ba", Ls2).num("tol", tol));
+            if (!rsDefect && std::fabs(R - R2) > tol)
+                sink.viol("C14:symmetry:ReedsSheppStateSpace", witness(x, "ReedsShepp").num("d_ab", R).num("d_ba", R2).num("tol", tol));
             // curves
             int N = rng.range(400, 2000);
             polyline(x, 0, L, N);
@@ -1729,7 +1740,8 @@ namespace c14
                     }
                 }
             }
-            sink.noteCase(hsh, true);
+            caseHash = hmix(caseHash, hsh);
+            nontrivial = true;
             sink.sample(J().num("rho", rho).str("mode", x.mode).arr("a", {A.x, A.y, A.th}).arr("b", {Bp.x, Bp.y, Bp.th}).num("dubins", L)
                             .num("dubins_reference", rho * ref.exact).num("reeds_shepp", R).i("samples_per_curve", N));
         }
@@ -1745,7 +1757,7 @@ int main(int argc, char **argv)
     long total;
     void (*fn)(Sink &, const Args &, long);
     if (a.prop == "C05") total = a.thorough() ? 80000 : 30000, fn = c05::runCase;
-    else if (a.prop == "C14") total = a.thorough() ? 400000 : 40000, fn = c14::runCase;
+    else if (a.prop == "C14") total = a.thorough() ? 100000 : 40000, fn = c14::runCase;
     else
     {
         fprintf(stderr, "h_motion does not serve %s\n", a.prop.c_str());
